@@ -112,6 +112,7 @@ func Ops() []*core.Op {
 		syncedOp(),
 		accountOp(),
 		churnOp(),
+		roomOp(),
 		{
 			Name: "c04.history",
 			Doc:  "two-pass histories through the REAL provisioner: Provisioner.Schedule (commit trace) -> Provisioner.CreateNodeClaims/Create -> Cluster.Synced / Provisioner.Reconcile gate -> real lifecycle controller (launch / registration / initialization) against a provider that launches an adversarially chosen permitted (instance type, offering) -> state informer -> Provisioner.Schedule again at every lifecycle stage with the same pods pending; judged by Karp.Spec.NeedCapacity",
